@@ -15,6 +15,7 @@ import (
 	"flag"
 	"fmt"
 	"go/ast"
+	"go/token"
 	"os"
 	"path/filepath"
 	"sort"
@@ -29,6 +30,9 @@ import (
 )
 
 const verifDir = "/verif"
+
+// embedVars: contents of //go:embed string variables (pkgpath.name -> text), read at load time.
+var embedVars map[string]string
 
 func envOr(k, d string) string {
 	if v := os.Getenv(k); v != "" {
@@ -148,6 +152,40 @@ func loadHarness(prop, repo string) (*loaded, error) {
 	prog, ssaPkgs := ssautil.AllPackages(pkgs, ssa.InstantiateGenerics)
 	prog.Build()
 	ld := &loaded{prog: prog, stubs: map[string]*ssa.Function{}}
+	// //go:embed string variables of go-zero packages are filled from the files in the running tree
+	embedVars = map[string]string{}
+	packages.Visit(pkgs, nil, func(p *packages.Package) {
+		if !strings.HasPrefix(p.PkgPath, "github.com/zeromicro/go-zero") {
+			return
+		}
+		for _, file := range p.Syntax {
+			dir := filepath.Dir(p.Fset.Position(file.Pos()).Filename)
+			for _, decl := range file.Decls {
+				gd, ok := decl.(*ast.GenDecl)
+				if !ok || gd.Tok != token.VAR {
+					continue
+				}
+				for _, sp := range gd.Specs {
+					vs := sp.(*ast.ValueSpec)
+					doc := vs.Doc
+					if doc == nil && len(gd.Specs) == 1 {
+						doc = gd.Doc
+					}
+					if doc == nil || len(vs.Names) != 1 {
+						continue
+					}
+					for _, c := range doc.List {
+						if strings.HasPrefix(c.Text, "//go:embed ") {
+							fn := strings.TrimSpace(strings.TrimPrefix(c.Text, "//go:embed "))
+							if b, err := os.ReadFile(filepath.Join(dir, fn)); err == nil {
+								embedVars[p.PkgPath+"."+vs.Names[0].Name] = string(b)
+							}
+						}
+					}
+				}
+			}
+		}
+	})
 	for i, p := range pkgs {
 		sp := ssaPkgs[i]
 		if sp == nil {
